@@ -4,6 +4,8 @@ from fractions import Fraction
 import common as C
 
 ID = "C12"
+# files this check also depends on (the quick tier runs at the thorough sizes when one of them differs from the fingerprinted tree)
+EXTRA_FILES = ['src/utils/utils.rs', 'src/collisions.rs', 'src/path_plan/rrt_to.rs']
 COQ_TARGETS = ["Exec/Stroke.vo", "Properties/C12.vo"]
 THEOREMS = ["C12_adaptive_spec", "C12_poses_key_order", "C12_probe_waypoints", "C12_no_interp_unless_requested", "C12_plan_success_iff",
             "C12_plan_is_a_probe", "C12_inter_on_segment", "C12_nsteps_fine", "C12_starts_at_from"]
